@@ -9,8 +9,7 @@ from common import Cmat, Cx, R, cfl, fl, max_rel_err
 
 LEAN_MODULES = ["PyomaVerif.Props.C08", "PyomaVerif.Props.C08Pipe", "PyomaVerif.Props.C08Unity", "PyomaVerif.Props.C08Ms", "PyomaVerif.Props.C08Perm",
                 "PyomaVerif.Props.C08PermPlscf",
-                "PyomaVerif.Props.C08MixBell"]
-                "PyomaVerif.Props.C08PermPlscf", "PyomaVerif.Props.C08MixPlscf"]
+                "PyomaVerif.Props.C08MixBell", "PyomaVerif.Props.C08MixPlscf"]
 THEOREMS = [
     "PV.C08.C08_gain_hank_mm",
     "PV.C08.C08_gain_hank_R",
